@@ -27,7 +27,7 @@ func init() {
 var profC04 = Profile{
 	MaxBars: 7, MinBars: 1, MaxSteps: 40, Refresh: []string{"manual", "manual", "manual", "manual", "manual", "none"}, QLens: []int{-1},
 	Pop: 35, Queue: 15, Prio: true, PrioOnFinished: true, Ext: 30, Text: 3, Rm: 30, NoPop: 20, AbortW: 2, TicksW: 10,
-	Pty: 55, PtyRowsMax: 8, Delay: 15, Fillers: []string{"tag", "bar", "spinner"}, LateAdd: true, Cancel: 5,
+	Pty: 55, PtyRowsMax: 8, Delay: 15, Fillers: []string{"tag", "bar", "spinner", "spinnerv"}, LateAdd: true, Cancel: 5,
 }
 
 func genC04(t *rapid.T) interface{} {
@@ -35,6 +35,23 @@ func genC04(t *rapid.T) interface{} {
 	sc := genScenario(t, &profC04)
 	if sc.Cfg.Refresh == "none" {
 		sc.Cfg.PtyRows, sc.Cfg.PtyCols = 0, 0 // the claim is about non-terminal outputs
+	}
+	if sc.Cfg.Refresh == "manual" && pct(t, 10, "delayedshutdown") {
+		// a refreshing container that is shut down while its render delay is
+		// still pending: nothing at all may reach the output
+		sc.Cfg.Refresh = "autoinj"
+		sc.Cfg.Delay = true
+		sc.Cfg.PtyRows, sc.Cfg.PtyCols = 0, 0
+		var steps []engine.Step
+		for _, st := range sc.Steps {
+			if st.Op != "release" && st.Op != "cancel" && st.Op != "shutdown" {
+				steps = append(steps, st)
+			}
+		}
+		sc.Steps = append(steps, engine.Step{Op: rapid.SampledFrom([]string{"cancel", "shutdown"}).Draw(t, "delayedhow")})
+		for i := range sc.Bars {
+			sc.Bars[i].QueueAfter = -1
+		}
 	}
 	if sc.Cfg.Refresh == "manual" {
 		excludedKnown += int64(repairQueue(sc))
@@ -95,6 +112,16 @@ func runC04(ci interface{}) Result {
 			}
 		}
 		r.Nontrivial = len(sc.Steps) > 3
+		return r
+	}
+	if sc.Cfg.Refresh == "autoinj" {
+		// shut down with the render delay still pending
+		r.Classes = append(r.Classes, "shutdown-while-delayed")
+		if len(tr.Chunks) > 0 {
+			r.Err, r.Kind = fmt.Errorf("the render delay never ended but %d chunk(s) were written, first %q", len(tr.Chunks), tr.Chunks[0].Data), "early-output"
+			return r
+		}
+		r.Nontrivial = tr.Cycles > 0
 		return r
 	}
 	frames := tr.Frames()
